@@ -281,6 +281,7 @@ func runProofs(c *verdict.Ctx) {
 	for t := 0; t < nTrees; t++ {
 		r := c.Rand("proof", t)
 		leaves := genLeaves(r)
+		begin(map[string]interface{}{"stream": "proof", "case": t, "leaves_hex": hexs(leaves)})
 		root := ref.MerkleRoot(leaves)
 		realRoot, proofs := merkle.ProofsFromByteSlices(leaves)
 		if !bytes.Equal(root, realRoot) || !bytes.Equal(root, merkle.HashFromByteSlices(leaves)) ||
@@ -310,7 +311,6 @@ func runProofs(c *verdict.Ctx) {
 					}()
 					begin(proofWitness(leaves, m, "in progress", false))
 					err = p.Verify(root, m.item)
-					end()
 				}()
 				want := ref.ProofOK(leaves, m.item, m.index, m.total, m.leaf, m.aunts)
 				got := err == nil
@@ -344,6 +344,7 @@ func runProofs(c *verdict.Ctx) {
 		if t%10 == 0 {
 			txProofs(c, r, t)
 		}
+		end()
 	}
 }
 
